@@ -15,6 +15,14 @@ TYPES = {
     "Code310": ((3, 10), ["3.10"], True),
 }
 
+# the other opcode tables of each type's version range: their line-start routine must decode the same frozen table
+ALSO = {
+    "Code2": [(2, 0), (2, 1), (2, 2), (2, 3), (2, 4), (2, 5), (2, 6)],
+    "Code3": [(3, 0), (3, 1), (3, 2), (3, 3), (3, 4), (3, 5), (3, 6)],
+    "Code38": [(3, 9)],
+    "Code310": [],
+}
+
 GAPS = [1, 2, 3, 10, 100, 126, 127, 128, 129, 200, 254, 255, 256, 257, 300, 511, 600]
 
 
@@ -38,7 +46,7 @@ class C19:
     rule = ("case = (portable type Code2/Code3/Code38/Code310, first line, strictly increasing offsets from 0 with gaps "
             "drawn from {1..600 incl. 254-257}, lines with non-zero deltas drawn from +-{1,2,126..129,254..257,300,600} "
             "(negative only for Code38/Code310), table given as an {offset: line} dict); oracle: "
-            "list(opc.findlinestarts(c.freeze())) for that type's opcode table == the mapping, and the matching "
+            "list(opc.findlinestarts(c.freeze())) == the mapping for every opcode table of that type's version range (2.0-2.7 / 3.0-3.7 / 3.8,3.9 / 3.10), and the matching "
             "CPython (2.7 / 3.6,3.7 / 3.8,3.9 / 3.10) decodes the frozen bytes attached to a native code object to the "
             "same mapping; non-trivial = a gap needing continuation entries (offset gap >= 255 or |line delta| >= 127) "
             "or a decreasing line; distinct = (type, first line, mapping)")
@@ -145,6 +153,20 @@ class C19:
         if got is not None and got != want:
             res.fail("%s|own-decoder|%s" % (sig, shape(want, got, case)), "mapping %s (first line %d) froze to %s which xdis decodes as %s" % (
                 want[:6], case["first"], rw.hx(fb)[:80], got[:6]))
+        for avt in ALSO[typ]:
+            if got is None:
+                break
+            # 3.6 tables read line increments as signed (the 3.6 format); before that they are unsigned: lines that grow
+            # by more than 127 at once are encoded with continuation entries either way, so every table reads them alike
+            try:
+                agot = [[a, b] for a, b in x.disasm.get_opcode(avt, False).findlinestarts(p)]
+            except Exception as e:
+                res.fail("%s|own-decoder-raised|%s|table-%d.%d" % (sig, type(e).__name__, avt[0], avt[1]), "findlinestarts of the %d.%d table raised %s: %s" % (avt[0], avt[1], type(e).__name__, e))
+                break
+            if agot != want:
+                res.fail("%s|own-decoder|table-%d.%d" % (sig, avt[0], avt[1]), "mapping %s (first line %d) froze to %s which the %d.%d table's findlinestarts decodes as %s" % (
+                    want[:6], case["first"], rw.hx(fb)[:80], avt[0], avt[1], agot[:6]))
+                break
         # the same on another host Python (freeze() and the decoders are plain Python: one answer on 3.8 ... 3.13)
         if (len(fb) + case["codelen"]) % 5 == 0:
             from vf.pool import HOSTS
